@@ -834,7 +834,41 @@ def _isinstance(obj, cls):
     return isinstance(obj, cls)
 
 
+class _SymRange:
+    """range() with a symbolic bound: iteration is lazy (one solver decision per element); len(), indexing and slicing materialise it"""
+
+    def __init__(self, *args):
+        self.args = args
+
+    def __iter__(self):
+        return _sym_range_gen(*self.args)
+
+    def _list(self):
+        out = []
+        for x in self:
+            out.append(x)
+            if len(out) > 1 << 16:
+                raise Unsupported("range() with a symbolic bound and more than 65536 elements is materialised")
+        return out
+
+    def __getitem__(self, k):
+        return self._list()[k]
+
+    def __len__(self):
+        return len(self._list())
+
+    def __reversed__(self):
+        return reversed(self._list())
+
+    def __contains__(self, x):
+        return any(truth(x == y) for y in self._list())
+
+
 def _sym_range(*args):
+    return _SymRange(*args)
+
+
+def _sym_range_gen(*args):
     start, stop, step = (0, args[0], 1) if len(args) == 1 else ((args[0], args[1], 1) if len(args) == 2 else args)
     if isinstance(step, V.SymInt):
         step = Engine.current.concretize(step)
